@@ -15,13 +15,20 @@
 
 package quickfix
 
-import "github.com/quickfixgo/quickfix/internal"
+import (
+	"time"
+
+	"github.com/quickfixgo/quickfix/internal"
+)
 
 type resendState struct {
 	loggedOn
 	messageStash          map[int]*Message
 	currentResendRangeEnd int
 	resendRangeEnd        int
+	// Creation time of the store when the ResendRequest was sent. A reset of the sequence
+	// numbers renews it: the requested range and the stash then belong to a closed epoch.
+	storeCreationTime time.Time
 }
 
 func (s resendState) String() string { return "Resend" }
@@ -44,6 +51,12 @@ func (s resendState) FixMsgIn(session *session, msg *Message) (nextState session
 	nextState = inSession{}.FixMsgIn(session, msg)
 
 	if !nextState.IsLoggedOn() {
+		return
+	}
+
+	// The sequence numbers were reset since the ResendRequest went out (a Logon carrying
+	// ResetSeqNumFlag, the daily reset time): nothing requested or stashed before applies.
+	if !session.store.CreationTime().Equal(s.storeCreationTime) {
 		return
 	}
 
